@@ -17,7 +17,7 @@
    [packed_elem], [bit_elem], [node_elem]  the result expected for index k of a packed
                           series / a bitfield / a series of subtrees. *)
 From Coq Require Import List NArith ZArith Bool Lia PeanoNat ZifyN ZifyNat ZifyBool.
-From Ztyp Require Import Base Bitlen Tree Types View Iter BitlenProofs.
+From Ztyp Require Import Base Bitlen Tree Types Spec View Iter Repr BitlenProofs MerkleProofs.
 Import ListNotations.
 Open Scope N_scope.
 
@@ -761,7 +761,7 @@ Proof.
     destruct Hdiv as [-> ->]. rewrite Hb1. cbn [bind]. rewrite Hb2. cbn [bind].
     rewrite (Hoff j Hj Hlt).
     destruct (dec cur j) as [v| |]; cbn [bind]; try reflexivity.
-    eexists. split; [reflexivity|]. cbn [ei_i ei_j ei_cur ei_ri ei_stack].
+    eexists. split; [reflexivity|]. unfold gen_inv. cbn [ei_i ei_j ei_cur ei_ri ei_stack].
     split; [reflexivity|].
     destruct (Hnxt j Hj Hlt) as [Hn1 Hn2].
     split; [exact Hn2|]. split; [lia|]. split; [lia|]. split; [exact Hseek|].
@@ -782,7 +782,7 @@ Proof.
     destruct HS as (stk' & H1 & H2). rewrite H1. cbn [bind].
     destruct (leaf_chunk b) as [c| |] eqn:Hc; cbn [bind]; try reflexivity.
     destruct (dec c 0) as [v| |]; cbn [bind]; try reflexivity.
-    eexists. split; [reflexivity|]. cbn [ei_i ei_j ei_cur ei_ri ei_stack].
+    eexists. split; [reflexivity|]. unfold gen_inv. cbn [ei_i ei_j ei_cur ei_ri ei_stack].
     split; [reflexivity|]. rewrite Hoff1.
     split; [lia|]. split; [lia|]. split; [lia|]. split; [exact H2|].
     intros _. exists b. replace (ri + 1 - 1) with ri by lia. split; assumption.
@@ -803,3 +803,1002 @@ Proof.
 Qed.
 
 End Gen.
+
+(* ---- basicElemReadonlyIter ---- *)
+
+Lemma per_node_le_32 e : per_node e <= 32.
+Proof.
+  unfold per_node. destruct (ti_size (info e)) as [|p]; [cbv; discriminate|].
+  apply N.div_le_upper_bound; [discriminate|].
+  assert (1 * 32 <= N.pos p * 32) by (apply N.mul_le_mono_r; lia). lia.
+Qed.
+
+Lemma basic_iter_next_gen e anchor len depth it :
+  basic_iter_next e anchor len depth it =
+  gen_next (fun j => j <? per_node e) (fun j => wrap8 (j + 1)) (packed_val e) anchor len depth it.
+Proof. reflexivity. Qed.
+
+Lemma basic_iter_drain_gen e anchor len depth : forall calls it,
+  basic_iter_drain calls e anchor len depth it =
+  gen_drain (fun j => j <? per_node e) (fun j => wrap8 (j + 1)) (packed_val e) anchor len depth
+            IVal calls it.
+Proof.
+  induction calls as [|k IH]; intros it; [reflexivity|].
+  cbn [basic_iter_drain gen_drain]. rewrite basic_iter_next_gen.
+  destruct (gen_next _ _ _ _ _ _ it) as [[[v|] it']| |]; try reflexivity; now rewrite IH.
+Qed.
+
+Theorem basic_iter_drain_spec e anchor depth len extra :
+  1 <= per_node e -> depth < 256 -> len <= 2 ^ depth * per_node e -> len <= 2 ^ 64 ->
+  basic_iter_drain (N.to_nat len + extra) e anchor len depth (basic_iter_init e depth) =
+  steps_of IVal (map (packed_elem e anchor depth) (seq 0 (N.to_nat len))) extra.
+Proof.
+  intros HP Hd Hl H64. rewrite basic_iter_drain_gen.
+  pose proof (per_node_le_32 e) as H32.
+  change (packed_elem e anchor depth) with (gen_elem (per_node e) (packed_val e) anchor depth).
+  apply (gen_drain_spec (per_node e) (fun j => j <? per_node e) (fun j => wrap8 (j + 1))
+           (fun j => j) (packed_val e) anchor len depth HP).
+  - reflexivity.
+  - reflexivity.
+  - intros j Hj Hlt. unfold wrap8. split; [|apply N.mod_lt; lia].
+    rewrite N.mod_small by lia. reflexivity.
+  - reflexivity.
+  - exact Hd.
+  - exact Hl.
+  - exact H64.
+  - reflexivity.
+  - lia.
+  - unfold gen_inv, basic_iter_init. cbn [ei_i ei_j ei_cur ei_ri ei_stack].
+    split; [lia|]. split; [lia|]. split; [lia|]. split; [apply seek_inv_init|]. lia.
+Qed.
+
+(* ---- bitReadonlyIter ---- *)
+
+Lemma bit_iter_next_gen anchor len depth it :
+  bit_iter_next anchor len depth it =
+  gen_next (fun j => 0 <? j) (fun j => wrap8 (j + 1)) (fun c j => OK (chunk_get_bit c j))
+           anchor len depth it.
+Proof.
+  unfold bit_iter_next, gen_next. destruct (len <=? ei_i it); [reflexivity|].
+  destruct (0 <? ei_j it); [reflexivity|].
+  destruct (iter_seek anchor depth (ei_ri it) (ei_stack it)) as [[n stk]| |]; reflexivity.
+Qed.
+
+Lemma bit_iter_drain_gen anchor len depth : forall calls it,
+  bit_iter_drain calls anchor len depth it =
+  gen_drain (fun j => 0 <? j) (fun j => wrap8 (j + 1)) (fun c j => OK (chunk_get_bit c j))
+            anchor len depth (fun b => IVal (VBool b)) calls it.
+Proof.
+  induction calls as [|k IH]; intros it; [reflexivity|].
+  cbn [bit_iter_drain gen_drain]. rewrite bit_iter_next_gen.
+  destruct (gen_next _ _ _ _ _ _ it) as [[[v|] it']| |]; try reflexivity; now rewrite IH.
+Qed.
+
+Theorem bit_iter_drain_spec anchor depth len extra :
+  depth < 256 -> len <= 2 ^ depth * 256 -> len <= 2 ^ 64 ->
+  bit_iter_drain (N.to_nat len + extra) anchor len depth (bit_iter_init depth) =
+  steps_of (fun b => IVal (VBool b)) (map (bit_elem anchor depth) (seq 0 (N.to_nat len))) extra.
+Proof.
+  intros Hd Hl H64. rewrite bit_iter_drain_gen.
+  change (bit_elem anchor depth)
+    with (gen_elem 256 (fun c j => OK (chunk_get_bit c j)) anchor depth).
+  apply (gen_drain_spec 256 (fun j => 0 <? j) (fun j => wrap8 (j + 1))
+           (fun j => if j =? 0 then 256 else j) (fun c j => OK (chunk_get_bit c j))
+           anchor len depth).
+  - lia.
+  - intros j Hj. destruct (N.eqb_spec j 0) as [->|Hne]; [reflexivity|].
+    rewrite (proj2 (N.ltb_lt 0 j)) by lia. symmetry. apply N.ltb_lt. exact Hj.
+  - intros j Hj. destruct (N.eqb_spec j 0) as [->|Hne]; [lia|reflexivity].
+  - intros j Hj. destruct (N.eqb_spec j 0) as [->|Hne]; [lia|]. intros _.
+    unfold wrap8. split; [|apply N.mod_lt; lia].
+    destruct (N.eq_dec j 255) as [->|H255]; [reflexivity|].
+    rewrite N.mod_small by lia. destruct (N.eqb_spec (j + 1) 0); [lia|reflexivity].
+  - reflexivity.
+  - exact Hd.
+  - exact Hl.
+  - exact H64.
+  - reflexivity.
+  - lia.
+  - unfold gen_inv, bit_iter_init. cbn [ei_i ei_j ei_cur ei_ri ei_stack].
+    split; [lia|]. split; [cbn; lia|]. split; [cbn; lia|]. split; [apply seek_inv_init|].
+    cbn. lia.
+Qed.
+
+(* ---- the length checks of the constructors ---- *)
+
+Lemma basic_iter_ok_le e depth len : depth < 64 -> basic_iter_ok e depth len = true ->
+  len <= 2 ^ depth * per_node e /\ len < 2 ^ 64.
+Proof.
+  intros Hd H. unfold basic_iter_ok in H. rewrite negb_true_iff, N.ltb_ge in H.
+  rewrite (shl64_1 depth Hd) in H. unfold mul64, wrap64 in H. rewrite two64_eq in H.
+  pose proof (N.mod_le (2 ^ depth * per_node e) (2 ^ 64) ltac:(lia)).
+  pose proof (N.mod_lt (2 ^ depth * per_node e) (2 ^ 64) ltac:(lia)). lia.
+Qed.
+
+Lemma basic_iter_ok_high e depth len : 64 <= depth -> basic_iter_ok e depth len = true -> len = 0.
+Proof.
+  intros Hd H. unfold basic_iter_ok in H. rewrite negb_true_iff, N.ltb_ge in H.
+  rewrite (shl64_1_high depth Hd) in H. cbn in H. lia.
+Qed.
+
+Lemma bit_iter_ok_le depth len : depth < 64 -> bit_iter_ok depth len = true ->
+  len <= 2 ^ depth * 256 /\ len < 2 ^ 64.
+Proof.
+  intros Hd H. unfold bit_iter_ok in H. rewrite negb_true_iff, N.ltb_ge in H.
+  rewrite (shl64_1 depth Hd) in H. unfold shl64, wrap64 in H. rewrite two64_eq in H.
+  rewrite N.shiftl_mul_pow2 in H. change (2 ^ 8) with 256 in H.
+  pose proof (N.mod_le (2 ^ depth * 256) (2 ^ 64) ltac:(lia)).
+  pose proof (N.mod_lt (2 ^ depth * 256) (2 ^ 64) ltac:(lia)). lia.
+Qed.
+
+Lemma bit_iter_ok_high depth len : 64 <= depth -> bit_iter_ok depth len = true -> len = 0.
+Proof.
+  intros Hd H. unfold bit_iter_ok in H. rewrite negb_true_iff, N.ltb_ge in H.
+  rewrite (shl64_1_high depth Hd) in H. cbn in H. lia.
+Qed.
+
+(* ------------------------------------------------------------------------------------- *)
+(* 6. the three access paths agree                                                       *)
+(* ------------------------------------------------------------------------------------- *)
+
+(* [agree ro ga extra]: [ro] (a drained read-only iterator) against [ga] (the indexed
+   getters, one entry per index): if ro shows no failure it is ga followed by the end
+   reports, and in any case a component at position i of ro is entry i of ga. *)
+Definition agree (ro ga : list istep) (extra : nat) : Prop :=
+  ~ In IPanic ro /\
+  (~ In IErr ro ->
+     ro = ga ++ repeat IEnd extra /\ Forall (fun s => is_comp s = true) ga) /\
+  (forall i s, nth_error ro i = Some s -> is_comp s = true -> nth_error ga i = Some s).
+
+Lemma agree_err ga extra : agree [IErr] ga extra.
+Proof.
+  split; [|split].
+  - intros [H|[]]. discriminate.
+  - intros H. exfalso. apply H. now left.
+  - intros [|[|i]] s Hn Hc; cbn in Hn; try discriminate. injection Hn as <-. discriminate.
+Qed.
+
+Lemma agree_steps {A} (f : A -> istep) (el : nat -> res A) (g : nat -> istep) extra : forall l,
+  (forall k, In k l -> el k <> Panic) ->
+  (forall k a, In k l -> el k = OK a -> g k = f a /\ is_comp (f a) = true) ->
+  agree (steps_of f (map el l) extra) (map g l) extra.
+Proof.
+  induction l as [|k l IH]; intros Hnp Hel.
+  - cbn [map steps_of app]. split; [|split].
+    + intros Hin. apply repeat_spec in Hin. discriminate.
+    + intros _. split; [reflexivity|constructor].
+    + intros i s Hn Hc. apply nth_error_In, repeat_spec in Hn. subst s. discriminate.
+  - cbn [map steps_of].
+    destruct (el k) as [a| |] eqn:Hk;
+      [|apply agree_err|exfalso; exact (Hnp k (or_introl eq_refl) Hk)].
+    destruct (Hel k a (or_introl eq_refl) Hk) as [Hg Hc].
+    destruct IH as (I0 & I1 & I2);
+      [intros k' Hin; apply Hnp; now right|intros k' a' Hin; apply Hel; now right|].
+    split; [|split].
+    + intros [Hin|Hin]; [rewrite Hin in Hc; discriminate|now apply I0].
+    + intros Hclean. destruct I1 as [E F]; [intros Hs; apply Hclean; now right|].
+      split; [cbn [app]; now rewrite Hg, <- E|].
+      constructor; [now rewrite Hg|exact F].
+    + intros [|i] s Hn Hcs; cbn [nth_error] in *.
+      * now rewrite Hg.
+      * now apply I2.
+Qed.
+
+Lemma leaf_chunk_not_panic n : leaf_chunk n <> Panic.
+Proof. destruct n; discriminate. Qed.
+
+Lemma packed_val_not_panic e c i : packed_val e c i <> Panic.
+Proof.
+  unfold packed_val. destruct e; try discriminate.
+  destruct (32 / w <=? i); [discriminate|].
+  destruct ((w =? 1) || (w =? 2) || (w =? 4) || (w =? 8)); [discriminate|].
+  destruct (w =? 32); discriminate.
+Qed.
+
+Lemma bit_elem_not_panic anchor d k : bit_elem anchor d k <> Panic.
+Proof.
+  unfold bit_elem. pose proof (bottom_not_panic anchor d (N.of_nat k / 256)).
+  destruct (bottom anchor d (N.of_nat k / 256)) as [b| |]; cbn [bind]; try congruence.
+  pose proof (leaf_chunk_not_panic b). destruct (leaf_chunk b); cbn [bind]; congruence.
+Qed.
+
+Lemma packed_elem_not_panic e anchor d k : packed_elem e anchor d k <> Panic.
+Proof.
+  unfold packed_elem. pose proof (bottom_not_panic anchor d (N.of_nat k / per_node e)).
+  destruct (bottom anchor d (N.of_nat k / per_node e)) as [b| |]; cbn [bind]; try congruence.
+  pose proof (leaf_chunk_not_panic b). destruct (leaf_chunk b); cbn [bind]; try congruence.
+  apply packed_val_not_panic.
+Qed.
+
+Lemma node_elem_not_panic tys anchor d k : node_elem tys anchor d k <> Panic.
+Proof.
+  unfold node_elem. pose proof (bottom_not_panic anchor d (N.of_nat k)).
+  destruct (bottom anchor d (N.of_nat k)) as [m| |]; cbn [bind]; try congruence.
+  destruct (tys k) as [t|]; [|discriminate]. destruct (view_from_backing_ok t m); discriminate.
+Qed.
+
+(* ---- the getters in terms of [bottom] ---- *)
+
+Lemma get_node_bottom t n q : view_depth t < 64 -> q < 2 ^ view_depth t ->
+  get_node t n q = bottom n (view_depth t) q.
+Proof.
+  intros Hd Hq. unfold get_node. rewrite to_gindex64_spec.
+  rewrite (proj2 (N.ltb_lt _ _) Hd), (proj2 (N.ltb_lt _ _) Hq). cbn [andb bind].
+  symmetry. now apply bottom_getter.
+Qed.
+
+Lemma index_path_succ d q : q < 2 ^ d -> index_path (d + 1) q = false :: index_path d q.
+Proof.
+  intros Hq. unfold index_path.
+  replace (N.to_nat (d + 1)) with (S (N.to_nat d)) by lia.
+  cbn [seq map]. f_equal.
+  - apply (testbit_small q d); [exact Hq|lia].
+  - rewrite <- seq_shift, map_map. apply map_ext. intros k. f_equal. lia.
+Qed.
+
+(* lists: the contents sit under the left child, one level down *)
+Lemma get_node_bottom_list t c r q d : view_depth t = d + 1 -> d + 1 < 64 -> q < 2 ^ d ->
+  get_node t (Pair c r) q = bottom c d q.
+Proof.
+  intros Hv Hd Hq.
+  assert (Hq' : q < 2 ^ (d + 1)) by (rewrite N.pow_add_r; change (2 ^ 1) with 2; lia).
+  rewrite get_node_bottom by (rewrite Hv; assumption).
+  rewrite Hv. unfold bottom. rewrite (index_path_succ d q Hq). reflexivity.
+Qed.
+
+Lemma list_length_not_panic k n : list_length k n <> Panic.
+Proof.
+  unfold list_length. destruct n as [c|l [c|a b]]; try discriminate.
+  destruct (k <? _); discriminate.
+Qed.
+
+Lemma list_length_ok k n ll : list_length k n = OK ll ->
+  exists c r, n = Pair c r /\ ll <= k.
+Proof.
+  unfold list_length. destruct n as [c|l [c|a b]]; try discriminate.
+  destruct (N.ltb_spec k (le_val (firstn 8 c))) as [H|H]; [discriminate|].
+  intros E. injection E as <-. eauto.
+Qed.
+
+Lemma check_index_ok t n ll i : list_length (list_limit t) n = OK ll -> i < ll ->
+  check_index t n i = OK tt.
+Proof.
+  intros Hl Hi. unfold check_index. rewrite Hl. cbn [bind].
+  destruct (list_length_ok _ _ _ Hl) as (c & r & _ & Hle).
+  rewrite (proj2 (N.leb_gt ll i)) by lia. rewrite (proj2 (N.leb_gt (list_limit t) i)) by lia.
+  reflexivity.
+Qed.
+
+(* per_node of a well-formed basic element is a power of two, at most 32 *)
+Lemma per_node_uint w : uint_width_ok w = true ->
+  exists s, per_node (TUint w) = 2 ^ s /\ s <= 5.
+Proof.
+  unfold uint_width_ok. rewrite !orb_true_iff, !N.eqb_eq.
+  intros [[[[->| ->]| ->]| ->]| ->]; [exists 5|exists 4|exists 3|exists 2|exists 0]; split;
+    (reflexivity || lia).
+Qed.
+
+Lemma land_pow2_pred i s : N.land i (2 ^ s - 1) = i mod 2 ^ s.
+Proof. rewrite N.sub_1_r, <- N.ones_equiv. apply N.land_ones. Qed.
+
+Lemma packed_index e i : is_basic_elem e = true -> wf_ty e = true ->
+  1 <= per_node e /\ wrap8 (N.land i (per_node e - 1)) = i mod per_node e.
+Proof.
+  destruct e; try discriminate. intros _ Hwf. cbn [wf_ty] in Hwf.
+  destruct (per_node_uint w Hwf) as (s & -> & Hs).
+  pose proof (pow2_pos s). split; [lia|].
+  rewrite land_pow2_pred. unfold wrap8. apply N.mod_small.
+  assert (2 ^ s <= 2 ^ 5) by (apply N.pow_le_mono_r; lia). change (2 ^ 5) with 32 in *.
+  pose proof (N.mod_lt i (2 ^ s)). lia.
+Qed.
+
+Lemma div_lt_bound i p d len : 1 <= p -> i < len -> len <= 2 ^ d * p -> i / p < 2 ^ d.
+Proof.
+  intros Hp Hi Hl. apply N.div_lt_upper_bound; [lia|]. rewrite N.mul_comm. lia.
+Qed.
+
+Lemma seq_in_lt k len : In k (seq 0 (N.to_nat len)) -> N.of_nat k < len.
+Proof. intros H. apply in_seq in H. lia. Qed.
+
+Lemma packed_tail e anchor d k gn a :
+  is_basic_elem e = true -> wf_ty e = true ->
+  gn = bottom anchor d (N.of_nat k / per_node e) ->
+  packed_elem e anchor d k = OK a ->
+  got_step (do b <- gn; do c <- leaf_chunk b;
+            do v <- packed_val e c (wrap8 (N.land (N.of_nat k) (per_node e - 1))); OK (GVal v)) = IVal a.
+Proof.
+  intros Hb Hwf -> He. destruct (packed_index e (N.of_nat k) Hb Hwf) as [_ ->].
+  unfold packed_elem in He.
+  destruct (bottom anchor d (N.of_nat k / per_node e)) as [b| |]; cbn [bind] in *; try discriminate.
+  destruct (leaf_chunk b) as [c| |]; cbn [bind] in *; try discriminate.
+  rewrite He. reflexivity.
+Qed.
+
+Lemma bit_tail anchor d k gn a :
+  gn = bottom anchor d (N.of_nat k / 256) ->
+  bit_elem anchor d k = OK a ->
+  got_step (do b <- gn; do c <- leaf_chunk b;
+            OK (GVal (VBool (chunk_get_bit c (wrap8 (N.of_nat k)))))) = IVal (VBool a).
+Proof.
+  intros -> He. unfold bit_elem in He. unfold wrap8.
+  destruct (bottom anchor d (N.of_nat k / 256)) as [b| |]; cbn [bind] in *; try discriminate.
+  destruct (leaf_chunk b) as [c| |]; cbn [bind] in *; try discriminate.
+  injection He as <-. reflexivity.
+Qed.
+
+Lemma node_tail tys anchor d k gn t0 a :
+  gn = bottom anchor d (N.of_nat k) -> tys k = Some t0 ->
+  node_elem tys anchor d k = OK a ->
+  got_step (do c <- gn; OK (GNode t0 c)) = a /\ is_comp a = true.
+Proof.
+  intros -> Ht He. unfold node_elem in He. rewrite Ht in He.
+  destruct (bottom anchor d (N.of_nat k)) as [m| |]; cbn [bind] in *; try discriminate.
+  destruct (view_from_backing_ok t0 m); [|discriminate]. injection He as <-. split; reflexivity.
+Qed.
+
+Lemma shiftr8 i : N.shiftr i 8 = i / 256.
+Proof. rewrite N.shiftr_div_pow2. reflexivity. Qed.
+
+Local Ltac solve_np :=
+  first [apply bit_elem_not_panic | apply packed_elem_not_panic | apply node_elem_not_panic].
+
+Theorem ro_get_agree t n extra :
+  wf_ty t = true -> view_depth t < 64 ->
+  agree (ro_iter t n extra) (get_all t n) extra.
+Proof.
+  intros Hwf Hvd. destruct t as [w| |k| |k|k|e k|e k|fs|none opts]; try apply agree_err.
+  - (* Bitvector *)
+    cbn [ro_iter]. unfold get_all. cbn [series_len]. unfold nat_of.
+    set (t := TBitvector k) in *. set (d := view_depth t) in *.
+    destruct (bit_iter_ok d k) eqn:Hok; [|apply agree_err].
+    destruct (bit_iter_ok_le d k Hvd Hok) as [Hl H64].
+    rewrite bit_iter_drain_spec by lia.
+    apply agree_steps; [intros i _; solve_np|]. intros i a Hin He. apply seq_in_lt in Hin. split; [|reflexivity].
+    unfold view_get, t; fold t. rewrite (proj2 (N.leb_gt k (N.of_nat i)) Hin). rewrite shiftr8.
+    apply (bit_tail n d i); [|exact He].
+    apply get_node_bottom; [exact Hvd|]. apply (div_lt_bound _ 256 d k); lia.
+  - (* Bitlist *)
+    cbn [ro_iter]. unfold get_all. cbn [series_len]. unfold nat_of.
+    set (t := TBitlist k) in *.
+    destruct (list_length k n) as [ll| |] eqn:Hll;
+      [|destruct n; apply agree_err|exfalso; exact (list_length_not_panic _ _ Hll)].
+    destruct (list_length_ok _ _ _ Hll) as (c & r & -> & Hle). cbn [node_left].
+    set (d := contents_depth t) in *.
+    assert (Hd : view_depth t = d + 1) by reflexivity.
+    destruct (bit_iter_ok d ll) eqn:Hok; [|apply agree_err].
+    destruct (bit_iter_ok_le d ll ltac:(lia) Hok) as [Hl H64].
+    rewrite bit_iter_drain_spec by lia.
+    apply agree_steps; [intros i _; solve_np|]. intros i a Hin He. apply seq_in_lt in Hin. split; [|reflexivity].
+    unfold view_get, t; fold t. rewrite (check_index_ok t _ ll) by assumption. cbn [bind].
+    rewrite shiftr8.
+    apply (bit_tail c d i); [|exact He].
+    apply get_node_bottom_list; [exact Hd|lia|]. apply (div_lt_bound _ 256 d ll); lia.
+  - (* Vector *)
+    cbn [wf_ty] in Hwf. apply andb_true_iff in Hwf. destruct Hwf as [_ Hwfe].
+    cbn [ro_iter]. unfold get_all. cbn [series_len]. unfold nat_of.
+    set (t := TVector e k) in *. set (d := view_depth t) in *.
+    destruct (is_basic_elem e) eqn:Hb.
+    + destruct (basic_iter_ok e d k) eqn:Hok; [|apply agree_err].
+      destruct (basic_iter_ok_le e d k Hvd Hok) as [Hl H64].
+      destruct (packed_index e 0 Hb Hwfe) as [Hp _].
+      rewrite basic_iter_drain_spec by lia.
+      apply agree_steps; [intros i _; solve_np|]. intros i a Hin He. apply seq_in_lt in Hin. split; [|reflexivity].
+      unfold view_get, t; fold t. rewrite (proj2 (N.leb_gt k (N.of_nat i)) Hin). rewrite Hb.
+      cbv zeta. apply (packed_tail e n d i); try assumption.
+      apply get_node_bottom; [exact Hvd|]. apply (div_lt_bound _ (per_node e) d k); lia.
+    + destruct (node_iter_ok d k) eqn:Hok; [|apply agree_err].
+      apply (node_iter_ok_spec d k Hvd) in Hok. pose proof (pow2_le_64 d Hvd).
+      rewrite node_iter_drain_init by lia.
+      apply agree_steps; [intros i _; solve_np|]. intros i a Hin He. apply seq_in_lt in Hin.
+      unfold view_get, t; fold t. rewrite (proj2 (N.leb_gt k (N.of_nat i)) Hin). rewrite Hb.
+      apply (node_tail (fun _ => Some e) n d i); [|reflexivity|exact He].
+      apply get_node_bottom; [exact Hvd|fold d; lia].
+  - (* List *)
+    cbn [wf_ty] in Hwf. rename Hwf into Hwfe.
+    cbn [ro_iter]. unfold get_all. cbn [series_len]. unfold nat_of.
+    set (t := TList e k) in *.
+    destruct (list_length k n) as [ll| |] eqn:Hll;
+      [|destruct n; apply agree_err|exfalso; exact (list_length_not_panic _ _ Hll)].
+    destruct (list_length_ok _ _ _ Hll) as (c & r & -> & Hle). cbn [node_left].
+    set (d := contents_depth t) in *.
+    assert (Hd : view_depth t = d + 1) by reflexivity.
+    cbv zeta.
+    destruct (is_basic_elem e) eqn:Hb.
+    + destruct (basic_iter_ok e d ll) eqn:Hok; [|apply agree_err].
+      destruct (basic_iter_ok_le e d ll ltac:(lia) Hok) as [Hl H64].
+      destruct (packed_index e 0 Hb Hwfe) as [Hp _].
+      rewrite basic_iter_drain_spec by lia.
+      apply agree_steps; [intros i _; solve_np|]. intros i a Hin He. apply seq_in_lt in Hin. split; [|reflexivity].
+      unfold view_get, t; fold t. rewrite (check_index_ok t _ ll) by assumption. cbn [bind].
+      rewrite Hb. cbv zeta. apply (packed_tail e c d i); try assumption.
+      apply get_node_bottom_list; [exact Hd|lia|].
+      apply (div_lt_bound _ (per_node e) d ll); lia.
+    + destruct (node_iter_ok d ll) eqn:Hok; [|apply agree_err].
+      apply (node_iter_ok_spec d ll ltac:(lia)) in Hok. pose proof (pow2_le_64 d ltac:(lia)).
+      rewrite node_iter_drain_init by lia.
+      apply agree_steps; [intros i _; solve_np|]. intros i a Hin He. apply seq_in_lt in Hin.
+      unfold view_get, t; fold t. rewrite (check_index_ok t _ ll) by assumption. cbn [bind].
+      rewrite Hb.
+      apply (node_tail (fun _ => Some e) c d i); [|reflexivity|exact He].
+      apply get_node_bottom_list; [exact Hd|lia|lia].
+  - (* Container *)
+    cbn [ro_iter]. unfold get_all. cbn [series_len]. unfold nat_of.
+    set (t := TContainer fs) in *. set (d := view_depth t) in *.
+    destruct (node_iter_ok d (N.of_nat (length fs))) eqn:Hok; [|apply agree_err].
+    apply (node_iter_ok_spec d _ Hvd) in Hok. pose proof (pow2_le_64 d Hvd).
+    rewrite <- (Nat2N.id (length fs)) at 1.
+    rewrite node_iter_drain_init by lia.
+    apply agree_steps; [intros i _; solve_np|]. intros i a Hin He. apply seq_in_lt in Hin.
+    unfold view_get, t; fold t. unfold nat_of. rewrite Nat2N.id.
+    destruct (nth_error fs i) as [f|] eqn:Hf.
+    + apply (node_tail (fun i => nth_error fs i) n d i); [|exact Hf|exact He].
+      apply get_node_bottom; [exact Hvd|fold d; lia].
+    + exfalso. unfold node_elem in He. rewrite Hf in He.
+      destruct (bottom n d (N.of_nat i)); discriminate.
+Qed.
+
+(* ---- the user-facing corollaries ---- *)
+
+Lemma get_all_length t n len : series_len t n = OK len -> length (get_all t n) = N.to_nat len.
+Proof. intros H. unfold get_all, nat_of. rewrite H. now rewrite map_length, seq_length. Qed.
+
+Lemma get_all_comp_len t n :
+  Forall (fun s => is_comp s = true) (get_all t n) -> get_all t n <> [] ->
+  exists len, series_len t n = OK len.
+Proof.
+  unfold get_all. destruct (series_len t n) as [len| |]; [eauto| |];
+    intros HF _; inversion HF; discriminate.
+Qed.
+
+Theorem ix_eq_get t n extra len : series_len t n = OK len ->
+  ix_iter t n extra = get_all t n ++ repeat IEnd extra /\
+  length (get_all t n) = N.to_nat len.
+Proof.
+  intros H. split; [|now apply get_all_length]. unfold ix_iter, get_all. now rewrite H.
+Qed.
+
+Theorem ro_no_panic t n extra : wf_ty t = true -> view_depth t < 64 ->
+  ~ In IPanic (ro_iter t n extra).
+Proof. intros Hwf Hvd. apply (ro_get_agree t n extra Hwf Hvd). Qed.
+
+(* ro_iter of a non-series type or of a broken list is [IErr]; so "no IErr" gives a length *)
+Lemma ro_iter_series_len t n extra : ~ In IErr (ro_iter t n extra) ->
+  exists len, series_len t n = OK len.
+Proof.
+  intros H. destruct t; cbn [series_len]; eauto; try (exfalso; apply H; now left).
+  - cbn [ro_iter] in H. destruct (list_length n0 n) as [ll| |] eqn:Hll; [eauto| |].
+    + exfalso. apply H. destruct n; now left.
+    + exfalso. exact (list_length_not_panic _ _ Hll).
+  - cbn [ro_iter] in H. destruct (list_length n0 n) as [ll| |] eqn:Hll; [eauto| |].
+    + exfalso. apply H. destruct n; now left.
+    + exfalso. exact (list_length_not_panic _ _ Hll).
+Qed.
+
+Theorem ro_eq_get t n extra : wf_ty t = true -> view_depth t < 64 ->
+  ~ In IErr (ro_iter t n extra) ->
+  exists len, series_len t n = OK len /\
+    ro_iter t n extra = get_all t n ++ repeat IEnd extra /\
+    length (get_all t n) = N.to_nat len /\
+    Forall (fun s => is_comp s = true) (get_all t n).
+Proof.
+  intros Hwf Hvd Hclean.
+  destruct (ro_get_agree t n extra Hwf Hvd) as (_ & H1 & _).
+  destruct (H1 Hclean) as [E F].
+  destruct (ro_iter_series_len t n extra Hclean) as [len Hlen].
+  exists len. split; [exact Hlen|]. split; [exact E|]. split; [now apply get_all_length|exact F].
+Qed.
+
+Theorem ro_sound t n extra i s : wf_ty t = true -> view_depth t < 64 ->
+  nth_error (ro_iter t n extra) i = Some s -> is_comp s = true ->
+  nth_error (get_all t n) i = Some s /\
+  exists len, series_len t n = OK len /\ N.of_nat i < len.
+Proof.
+  intros Hwf Hvd Hn Hc.
+  destruct (ro_get_agree t n extra Hwf Hvd) as (_ & _ & H2).
+  pose proof (H2 i s Hn Hc) as Hg. split; [exact Hg|].
+  assert (Hi : (i < length (get_all t n))%nat) by (apply nth_error_Some; congruence).
+  revert Hg Hi. unfold get_all. destruct (series_len t n) as [len| |].
+  - intros _ Hi. rewrite map_length, seq_length in Hi. unfold nat_of in Hi.
+    exists len. split; [reflexivity|lia].
+  - intros Hg _. destruct i as [|[|i]]; cbn in Hg; try discriminate.
+    injection Hg as <-. discriminate.
+  - intros Hg _. destruct i as [|[|i]]; cbn in Hg; try discriminate.
+    injection Hg as <-. discriminate.
+Qed.
+
+(* the end is reported exactly from the length on, and keeps being reported *)
+Theorem ro_end_exact t n extra i : wf_ty t = true -> view_depth t < 64 ->
+  ~ In IErr (ro_iter t n extra) ->
+  exists len, series_len t n = OK len /\
+    (nth_error (ro_iter t n extra) i = Some IEnd <->
+     (N.to_nat len <= i < N.to_nat len + extra)%nat) /\
+    ((i < N.to_nat len)%nat ->
+     exists s, nth_error (ro_iter t n extra) i = Some s /\ is_comp s = true).
+Proof.
+  intros Hwf Hvd Hclean.
+  destruct (ro_eq_get t n extra Hwf Hvd Hclean) as (len & Hlen & E & L & F).
+  exists len. split; [exact Hlen|]. rewrite E.
+  destruct (Nat.lt_ge_cases i (N.to_nat len)) as [Hi|Hi].
+  - rewrite nth_error_app1 by lia.
+    destruct (nth_error (get_all t n) i) as [s|] eqn:Hs;
+      [|apply nth_error_None in Hs; lia].
+    assert (Hc : is_comp s = true).
+    { rewrite Forall_forall in F. apply F. eapply nth_error_In; eassumption. }
+    split.
+    + split; [intros Hs'; injection Hs' as ->; discriminate|lia].
+    + intros _. exists s. split; [reflexivity|exact Hc].
+  - rewrite nth_error_app2 by lia. rewrite L. split; [|lia].
+    split.
+    + intros Hs. assert (i - N.to_nat len < extra)%nat; [|lia].
+      rewrite <- (repeat_length IEnd extra). apply nth_error_Some. congruence.
+    + intros Hr. rewrite (nth_error_nth' _ IEnd) by (rewrite repeat_length; lia).
+      f_equal. apply (repeat_spec extra IEnd). apply nth_In. rewrite repeat_length. lia.
+Qed.
+
+(* ------------------------------------------------------------------------------------- *)
+(* 7. examples (hypotheses are satisfiable) and counterexamples (hypotheses are needed)  *)
+(* ------------------------------------------------------------------------------------- *)
+
+Definition xzh : nat -> chunk := zero_hash (fun a b => a).
+Definition xc (k : N) : chunk := pad32 [byte_of_N k].
+(* a left spine of depth d with chunk c at the bottom-left position *)
+Fixpoint spine (d : nat) (c : chunk) : node :=
+  match d with O => Leaf c | S d' => Pair (spine d' c) (Leaf zero_chunk) end.
+
+(* depth 2, three of the four bottom nodes in use *)
+Definition ex_anchor : node := Pair (Pair (Leaf (xc 1)) (Leaf (xc 2))) (Pair (Leaf (xc 3)) (Leaf zero_chunk)).
+(* the right half is a summary leaf: bottom nodes 2 and 3 are missing *)
+Definition ex_missing : node := Pair (Pair (Leaf (xc 1)) (Leaf (xc 2))) (Leaf (xzh 1)).
+
+Example ex_node_iter_seq :
+  2 < 64 /\ 3 <= 2 ^ 2 /\
+  (forall i, i < 3 -> exists m, bottom ex_anchor 2 i = OK m) /\
+  node_iter_all ex_anchor 3 2 = OK [Leaf (xc 1); Leaf (xc 2); Leaf (xc 3)].
+Proof.
+  split; [lia|]. split; [vm_compute; discriminate|]. split; [|vm_compute; reflexivity].
+  intros i Hi.
+  assert (Hc : i = 0 \/ i = 1 \/ i = 2) by lia.
+  destruct Hc as [->|[->| ->]]; eexists; vm_compute; reflexivity.
+Qed.
+
+Example ex_node_iter_missing :
+  bottom ex_missing 2 2 = Err /\
+  node_iter_all ex_missing 3 2 = Err /\
+  node_iter_take ex_missing 3 2 2 (ni_init 2) = OK [Leaf (xc 1); Leaf (xc 2)] /\
+  node_iter_drain 4 (fun _ => Some TRoot) ex_missing 3 2 (ni_init 2) 0 =
+    [INode TRoot (Leaf (xc 1)); INode TRoot (Leaf (xc 2)); IErr].
+Proof. repeat split; vm_compute; reflexivity. Qed.
+
+Definition fst_ok {A B} (r : res (A * B)) : option A :=
+  match r with OK (a, _) => Some a | _ => None end.
+
+(* the end is sticky *)
+Example ex_node_iter_calls :
+  node_iter_calls ex_anchor 3 2 2 (ni_init 2) =
+    OK (Some (Leaf (xc 3)),
+        mkNI 3 [Some ex_anchor; Some (Pair (Leaf (xc 3)) (Leaf zero_chunk))]) /\
+  fst_ok (node_iter_calls ex_anchor 3 2 3 (ni_init 2)) = Some None /\
+  fst_ok (node_iter_calls ex_anchor 3 2 7 (ni_init 2)) = Some None.
+Proof. repeat split; vm_compute; reflexivity. Qed.
+
+(* COUNTEREXAMPLE (depth = 64): uint64(1) << 64 = 0 in Go and in the model, so the length
+   check of nodeReadonlyIter rejects every non-zero length although bottom node 0 exists:
+   [node_iter_seq] needs depth < 64, not depth <= 64. *)
+Example cex_depth64 :
+  node_iter_all (spine 64 (xc 7)) 1 64 = Err /\
+  bottom (spine 64 (xc 7)) 64 0 = OK (Leaf (xc 7)) /\ 1 <= 2 ^ 64.
+Proof. split; [|split]; vm_compute; (reflexivity || discriminate). Qed.
+
+(* a list of 20 uint16 (limit 40): 16 per bottom node, contents depth 2 *)
+Definition ex_ty : ty := TList (TUint 2) 40.
+Definition ex_val : val :=
+  VSeq (map VUint [1;2;3;4;5;6;7;8;9;10;11;12;13;14;15;16;17;18;19;20]).
+Definition ex_node : node :=
+  match from_val xzh ex_ty ex_val with OK n => n | _ => Leaf zero_chunk end.
+
+Example ex_ro_eq_get :
+  wf_ty ex_ty = true /\ view_depth ex_ty < 64 /\ ~ In IErr (ro_iter ex_ty ex_node 2) /\
+  series_len ex_ty ex_node = OK 20 /\
+  ro_iter ex_ty ex_node 2 = map (fun x => IVal (VUint x))
+      [1;2;3;4;5;6;7;8;9;10;11;12;13;14;15;16;17;18;19;20] ++ [IEnd; IEnd].
+Proof.
+  split; [reflexivity|]. split; [vm_compute; reflexivity|].
+  split; [|split; vm_compute; reflexivity].
+  vm_compute. intros H.
+  repeat (destruct H as [H|H]; [discriminate|]). exact H.
+Qed.
+
+(* a bitvector of 300 bits over two bottom nodes whose second node is missing:
+   256 correct bits, then an error (never a wrong bit) *)
+Definition ex_bv : ty := TBitvector 300.
+Definition ex_bv_node : node := Pair (Leaf (xc 5)) (Pair (Leaf (xc 1)) (Leaf (xc 1))).
+Example ex_ro_sound_err :
+  wf_ty ex_bv = true /\ view_depth ex_bv < 64 /\
+  nth_error (ro_iter ex_bv ex_bv_node 1) 2 = Some (IVal (VBool true)) /\
+  nth_error (ro_iter ex_bv ex_bv_node 1) 256 = Some IErr /\
+  length (ro_iter ex_bv ex_bv_node 1) = 257%nat.
+Proof. repeat split; vm_compute; reflexivity. Qed.
+
+(* COUNTEREXAMPLE (view_depth = 64): a list type whose contents subtree has depth 63
+   (limit 2^63 uint256 elements).  The read-only iterator works (it navigates with the
+   stack, depth 63 < 64), but the indexed getter fails: SubtreeView.GetNode calls
+   ToGindex64(i, depth = 64), which rejects depth >= 64.  So [view_depth t < 64] is needed
+   for the agreement of iterator and getters; this is the behaviour of the Go code too. *)
+Definition cex_t63 : ty := TList (TUint 32) (2 ^ 63).
+Definition cex_n63 : node := Pair (spine 63 (xc 7)) (len_leaf 1).
+Example cex_view_depth64 :
+  wf_ty cex_t63 = true /\ view_depth cex_t63 = 64 /\
+  ro_iter cex_t63 cex_n63 1 = [IVal (VUint 7); IEnd] /\
+  get_all cex_t63 cex_n63 = [IErr] /\
+  ix_iter cex_t63 cex_n63 1 = [IErr; IEnd].
+Proof. repeat split; vm_compute; reflexivity. Qed.
+
+(* ------------------------------------------------------------------------------------- *)
+(* 8. step-wise and soundness corollaries in closed form                                 *)
+(* ------------------------------------------------------------------------------------- *)
+
+Theorem node_iter_step anchor len depth k :
+  depth < 256 -> len <= 2 ^ depth -> len <= 2 ^ 64 ->
+  (forall x, x < N.of_nat k -> x < len -> exists m, bottom anchor depth x = OK m) ->
+  (N.of_nat k < len ->
+     match bottom anchor depth (N.of_nat k) with
+     | OK m => exists it', node_iter_calls anchor len depth k (ni_init depth) = OK (Some m, it')
+     | Err => node_iter_calls anchor len depth k (ni_init depth) = Err
+     | Panic => False
+     end) /\
+  (len <= N.of_nat k ->
+     exists it', node_iter_calls anchor len depth k (ni_init depth) = OK (None, it') /\
+                 node_iter_next anchor len depth it' = OK (None, it')).
+Proof.
+  intros Hd Hl H64 Hall.
+  destruct (node_iter_calls_spec anchor len depth Hd Hl H64 k 0%nat (repeat None (nat_of depth)))
+    as [S1 S2]; [lia|apply seek_inv_init| |].
+  - intros x Hx1 Hx2. apply Hall; lia.
+  - cbn [Nat.add N.of_nat] in *. split.
+    + intros Hk. specialize (S1 ltac:(lia)). unfold ni_init.
+      destruct (bottom anchor depth (N.of_nat k)) as [m| |]; [|exact S1|exact S1].
+      destruct S1 as [stk' E]. eexists. exact E.
+    + intros Hk. destruct (S2 ltac:(lia)) as [stk' E]. unfold ni_init.
+      eexists. split; [exact E|]. apply node_iter_next_end. cbn [ni_i]. lia.
+Qed.
+
+Lemma steps_of_nth_comp {A} (f : A -> istep) extra : forall rs i s,
+  nth_error (steps_of f rs extra) i = Some s -> is_comp s = true ->
+  exists a, nth_error rs i = Some (OK a) /\ s = f a.
+Proof.
+  induction rs as [|r rs IH]; intros i s Hn Hc.
+  - cbn [steps_of] in Hn. apply nth_error_In, repeat_spec in Hn. subst s. discriminate.
+  - destruct r as [a| |]; cbn [steps_of] in Hn.
+    + destruct i as [|i]; cbn [nth_error] in *.
+      * injection Hn as <-. exists a. split; reflexivity.
+      * now apply IH.
+    + destruct i as [|[|i]]; cbn in Hn; try discriminate. injection Hn as <-. discriminate.
+    + destruct i as [|[|i]]; cbn in Hn; try discriminate. injection Hn as <-. discriminate.
+Qed.
+
+Lemma nth_error_map_seq {A} (g : nat -> A) len i x :
+  nth_error (map g (seq 0 len)) i = Some x -> (i < len)%nat /\ x = g i.
+Proof.
+  intros H.
+  assert (Hi : (i < len)%nat).
+  { rewrite <- (seq_length len 0), <- (map_length g). apply nth_error_Some. congruence. }
+  split; [exact Hi|].
+  rewrite nth_error_map, (nth_error_nth' _ 0%nat) in H by (rewrite seq_length; lia).
+  rewrite seq_nth in H by lia. cbn in H. congruence.
+Qed.
+
+(* never a wrong component: what a packed iterator yields at position i is element i *)
+Theorem basic_iter_sound e anchor depth len extra i s :
+  1 <= per_node e -> depth < 256 -> len <= 2 ^ depth * per_node e -> len <= 2 ^ 64 ->
+  nth_error (basic_iter_drain (N.to_nat len + extra) e anchor len depth (basic_iter_init e depth)) i
+    = Some s ->
+  is_comp s = true ->
+  exists v, s = IVal v /\ packed_elem e anchor depth i = OK v /\ N.of_nat i < len.
+Proof.
+  intros HP Hd Hl H64 Hn Hc. rewrite basic_iter_drain_spec in Hn by assumption.
+  destruct (steps_of_nth_comp _ _ _ _ _ Hn Hc) as (v & Hv & ->).
+  apply nth_error_map_seq in Hv. destruct Hv as [Hi Hv]. exists v. repeat split; [now symmetry|lia].
+Qed.
+
+Theorem bit_iter_sound anchor depth len extra i s :
+  depth < 256 -> len <= 2 ^ depth * 256 -> len <= 2 ^ 64 ->
+  nth_error (bit_iter_drain (N.to_nat len + extra) anchor len depth (bit_iter_init depth)) i = Some s ->
+  is_comp s = true ->
+  exists b, s = IVal (VBool b) /\ bit_elem anchor depth i = OK b /\ N.of_nat i < len.
+Proof.
+  intros Hd Hl H64 Hn Hc. rewrite bit_iter_drain_spec in Hn by assumption.
+  destruct (steps_of_nth_comp _ _ _ _ _ Hn Hc) as (v & Hv & ->).
+  apply nth_error_map_seq in Hv. destruct Hv as [Hi Hv]. exists v. repeat split; [now symmetry|lia].
+Qed.
+
+(* the per_node values of the legal basic element types *)
+Lemma per_node_values :
+  per_node (TUint 1) = 32 /\ per_node (TUint 2) = 16 /\ per_node (TUint 4) = 8 /\
+  per_node (TUint 8) = 4 /\ per_node (TUint 32) = 1.
+Proof. repeat split; reflexivity. Qed.
+
+Lemma basic_iter_ok_spec e depth len : depth < 64 -> 2 ^ depth * per_node e < 2 ^ 64 ->
+  (basic_iter_ok e depth len = true <-> len <= 2 ^ depth * per_node e).
+Proof.
+  intros Hd Hs. unfold basic_iter_ok. rewrite negb_true_iff, N.ltb_ge.
+  rewrite (shl64_1 depth Hd). unfold mul64, wrap64. rewrite two64_eq.
+  rewrite N.mod_small by exact Hs. reflexivity.
+Qed.
+
+Lemma bit_iter_ok_spec depth len : depth < 56 ->
+  (bit_iter_ok depth len = true <-> len <= 2 ^ depth * 256).
+Proof.
+  intros Hd. unfold bit_iter_ok. rewrite negb_true_iff, N.ltb_ge.
+  rewrite (shl64_1 depth) by lia. unfold shl64, wrap64. rewrite two64_eq.
+  rewrite N.shiftl_mul_pow2. change (2 ^ 8) with 256.
+  assert (2 ^ depth * 256 < 2 ^ 64).
+  { change 256 with (2 ^ 8). rewrite <- N.pow_add_r. apply N.pow_lt_mono_r; lia. }
+  rewrite N.mod_small by assumption. reflexivity.
+Qed.
+
+(* ------------------------------------------------------------------------------------- *)
+(* 9. trees that represent a value                                                       *)
+(* ------------------------------------------------------------------------------------- *)
+
+Lemma index_path_cons d q : index_path (d + 1) q = N.testbit q d :: index_path d q.
+Proof.
+  unfold index_path.
+  replace (N.to_nat (d + 1)) with (S (N.to_nat d)) by lia.
+  cbn [seq map]. f_equal.
+  - f_equal. lia.
+  - rewrite <- seq_shift, map_map. apply map_ext. intros k. f_equal. lia.
+Qed.
+
+Lemma index_path_mod d q : index_path d (q mod 2 ^ d) = index_path d q.
+Proof.
+  unfold index_path. apply map_ext_in. intros k Hk. apply in_seq in Hk.
+  apply N.mod_pow2_bits_low. lia.
+Qed.
+
+Lemma nth_error_firstn' {A} : forall (l : list A) k i, (i < k)%nat ->
+  nth_error (firstn k l) i = nth_error l i.
+Proof.
+  induction l as [|x l IH]; intros k i Hi; [now rewrite firstn_nil|].
+  destruct k; [lia|]. destruct i; cbn; [reflexivity|]. apply IH. lia.
+Qed.
+
+Lemma nth_error_skipn' {A} : forall k (l : list A) i,
+  nth_error (skipn k l) i = nth_error l (k + i).
+Proof.
+  induction k as [|k IH]; intros l i; [reflexivity|].
+  destruct l as [|x l]; [now destruct i|]. cbn. apply IH.
+Qed.
+
+Section WithZeroTable.
+Variable zh : nat -> chunk.
+
+Lemma series_bottom : forall d ps n i p,
+  series zh d ps n -> nth_error ps i = Some p ->
+  exists m, bottom n (N.of_nat d) (N.of_nat i) = OK m /\ p m.
+Proof.
+  induction d as [|d IH]; intros ps n i p Hs Hn.
+  - destruct ps as [|p0 rest]; [destruct i; discriminate|].
+    apply (proj1 (series_0 zh p0 rest n)) in Hs. destruct Hs as [-> Hp].
+    destruct i as [|i]; [|destruct i; discriminate]. injection Hn as <-.
+    exists n. split; [|exact Hp]. unfold bottom, index_path. cbn. apply get_path_nil'.
+  - pose proof (series_length zh _ _ _ Hs) as Hlen.
+    assert (Hi : N.of_nat i < lenN ps).
+    { unfold lenN.
+      assert (i < length ps)%nat by (apply nth_error_Some; congruence). lia. }
+    replace (N.of_nat (S d)) with (N.of_nat d + 1) in * by lia.
+    rewrite N.pow_add_r in Hlen. change (2 ^ 1) with 2 in Hlen.
+    destruct n as [c|a b].
+    + apply (proj1 (series_leaf zh d ps c)) in Hs. destruct Hs as [-> _]. destruct i; discriminate.
+    + rewrite series_pair in Hs. unfold bottom. rewrite index_path_cons.
+      set (h := 2 ^ N.of_nat d) in *.
+      destruct (N.leb_spec (lenN ps) h) as [Hle|Hgt].
+      * destruct Hs as [Ha _].
+        rewrite (testbit_small (N.of_nat i) (N.of_nat d) (N.of_nat d)) by (fold h; lia).
+        cbn [get_path]. apply (IH ps a i p Ha Hn).
+      * destruct Hs as [Ha Hb]. unfold nat_of in *.
+        destruct (N.lt_ge_cases (N.of_nat i) h) as [Hlo|Hhi].
+        -- rewrite (testbit_small (N.of_nat i) (N.of_nat d) (N.of_nat d)) by (fold h; lia).
+           cbn [get_path]. apply (IH _ a i p Ha).
+           rewrite nth_error_firstn' by lia. exact Hn.
+        -- pose proof (testbit_top (N.of_nat d + 1) (N.of_nat i)) as Ht.
+           replace (N.of_nat d + 1 - 1) with (N.of_nat d) in Ht by lia. fold h in Ht.
+           rewrite Ht by (try lia; rewrite N.pow_add_r; change (2 ^ 1) with 2; fold h; lia).
+           rewrite (proj2 (N.ltb_ge _ _) Hhi). cbn [negb get_path].
+           rewrite <- index_path_mod. fold h.
+           assert (Hm : N.of_nat i mod h = N.of_nat (i - N.to_nat h)).
+           { symmetry. apply (N.mod_unique _ h 1); lia. }
+           rewrite Hm. apply (IH _ b (i - N.to_nat h)%nat p Hb).
+           rewrite nth_error_skipn'. replace (N.to_nat h + (i - N.to_nat h))%nat with i by lia.
+           exact Hn.
+Qed.
+
+End WithZeroTable.
+
+(* ---- generic: all results present ---- *)
+
+Lemma steps_of_all_ok {A} (f : A -> istep) (el : nat -> res A) (g : nat -> A) extra : forall l,
+  (forall k, In k l -> el k = OK (g k)) ->
+  steps_of f (map el l) extra = map (fun k => f (g k)) l ++ repeat IEnd extra.
+Proof.
+  induction l as [|k l IH]; intros Hall; [reflexivity|].
+  cbn [map steps_of app]. rewrite (Hall k (or_introl eq_refl)). f_equal.
+  apply IH. intros k' Hk'. apply Hall. now right.
+Qed.
+
+Lemma steps_of_forall2 {A X} (f : A -> istep) (R : istep -> X -> Prop) (el : nat -> res A) extra :
+  forall l xs,
+  Forall2 (fun k x => exists a, el k = OK a /\ R (f a) x) l xs ->
+  exists steps, steps_of f (map el l) extra = steps ++ repeat IEnd extra /\ Forall2 R steps xs.
+Proof.
+  intros l xs HF. induction HF as [|k x l xs (a & Ha & HR) _ (steps & E & F)].
+  - exists []. split; [reflexivity|constructor].
+  - exists (f a :: steps). cbn [map steps_of app]. rewrite Ha, E. split; [reflexivity|].
+    constructor; assumption.
+Qed.
+
+Lemma Forall2_seq_nth {X} (P : nat -> X -> Prop) : forall xs s,
+  (forall i x, nth_error xs i = Some x -> P (s + i)%nat x) ->
+  Forall2 P (seq s (length xs)) xs.
+Proof.
+  induction xs as [|x xs IH]; intros s Hall; [constructor|].
+  cbn [length seq]. constructor.
+  - specialize (Hall 0%nat x eq_refl). now rewrite Nat.add_0_r in Hall.
+  - apply IH. intros i y Hy. replace (S s + i)%nat with (s + S i)%nat by lia. now apply Hall.
+Qed.
+
+(* ---- depth bounds from small parameters ---- *)
+
+Lemma cover_depth_small v b : v <= 2 ^ b -> b < 64 -> cover_depth v <= b.
+Proof.
+  intros Hv Hb.
+  assert (H64 : 2 ^ b < 2 ^ 64) by (apply N.pow_lt_mono_r; lia).
+  rewrite cover_depth_log2_up by lia.
+  destruct (N.eq_dec v 0) as [->|Hnz]; [cbn; lia|].
+  apply N.log2_up_le_pow2; lia.
+Qed.
+
+Lemma bits_bottom_count_small k : k <= 2 ^ 56 -> bits_bottom_count k <= 2 ^ 48.
+Proof.
+  intros Hk. unfold bits_bottom_count, wrap64. rewrite two64_eq, shiftr8.
+  change (2 ^ 56) with 72057594037927936 in Hk. change (2 ^ 64) with 18446744073709551616.
+  change (2 ^ 48) with 281474976710656.
+  rewrite N.mod_small by lia. lia.
+Qed.
+
+Lemma bottom_count_small e k : k <= 2 ^ 56 -> bottom_count e k <= 2 ^ 57.
+Proof.
+  intros Hk. unfold bottom_count. cbv zeta. pose proof (per_node_le_32 e) as Hp.
+  unfold wrap64. rewrite two64_eq.
+  change (2 ^ 56) with 72057594037927936 in Hk. change (2 ^ 64) with 18446744073709551616.
+  change (2 ^ 57) with 144115188075855872.
+  rewrite N.mod_small by lia.
+  destruct (N.eq_dec (per_node e) 0) as [->|Hnz]; [cbn; lia|].
+  etransitivity; [apply (N.div_le_upper_bound _ _ (k + per_node e)); [exact Hnz|]|lia].
+  assert (1 * (k + per_node e) <= per_node e * (k + per_node e)) by (apply N.mul_le_mono_r; lia).
+  lia.
+Qed.
+
+(* bitfields: contents depth <= 48; packed: <= 57; others: <= 56 *)
+Lemma small_contents_depth t : small_params t = true ->
+  match t with
+  | TBitvector _ | TBitlist _ => contents_depth t <= 48
+  | TVector _ _ | TList _ _ => contents_depth t <= 57
+  | TContainer _ => True
+  | _ => contents_depth t = 0
+  end.
+Proof.
+  destruct t; cbn [small_params contents_depth]; intros Hs; try reflexivity; try exact I.
+  - apply N.leb_le in Hs. apply cover_depth_small; [now apply bits_bottom_count_small|lia].
+  - apply N.leb_le in Hs. apply cover_depth_small; [now apply bits_bottom_count_small|lia].
+  - apply andb_true_iff in Hs. destruct Hs as [Hs _]. apply N.leb_le in Hs.
+    destruct (is_basic_elem t); apply cover_depth_small; try lia.
+    + now apply bottom_count_small.
+    + etransitivity; [exact Hs|]. apply N.pow_le_mono_r; lia.
+  - apply andb_true_iff in Hs. destruct Hs as [Hs _]. apply N.leb_le in Hs.
+    destruct (is_basic_elem t); apply cover_depth_small; try lia.
+    + now apply bottom_count_small.
+    + etransitivity; [exact Hs|]. apply N.pow_le_mono_r; lia.
+Qed.
+
+Lemma small_view_depth t : small_params t = true ->
+  (forall fs, t = TContainer fs -> N.of_nat (length fs) <= 2 ^ 62) ->
+  view_depth t < 64.
+Proof.
+  intros Hs Hc. pose proof (small_contents_depth t Hs) as H.
+  unfold view_depth. destruct t; cbn [is_list_ty]; try lia.
+  cbn [contents_depth]. pose proof (cover_depth_small (N.of_nat (length fs)) 62 (Hc fs eq_refl)). lia.
+Qed.
+
+Section WithZeroTable2.
+Variable zh : nat -> chunk.
+
+Lemma repr_vfb e m x : wf_ty e = true -> repr zh e m x -> view_from_backing_ok e m = true.
+Proof.
+  intros Hwf Hr. destruct e; destruct x; cbn [repr] in Hr; try contradiction;
+    try (subst m; cbn [view_from_backing_ok]); try reflexivity;
+    try (destruct m; reflexivity).
+  cbn [wf_ty] in Hwf. apply andb_true_iff in Hwf. exact (proj2 Hwf).
+Qed.
+
+Lemma cdepth_N t : N.of_nat (cdepth t) = contents_depth t.
+Proof. unfold cdepth, nat_of. apply N2Nat.id. Qed.
+
+(* the bottom nodes of a series of subtrees represent the components *)
+Lemma series_node_elems (e : ty) d (vs : list val) anchor tys :
+  wf_ty e = true -> (forall i, (i < length vs)%nat -> tys i = Some e) ->
+  series zh d (map (fun x m => repr zh e m x) vs) anchor ->
+  Forall2 (fun k x => exists a, node_elem tys anchor (N.of_nat d) k = OK a /\
+                                 (exists m, a = INode e m /\ repr zh e m x))
+          (seq 0 (length vs)) vs.
+Proof.
+  intros Hwf Htys Hs. apply Forall2_seq_nth. intros i x Hx. cbn [Nat.add].
+  destruct (series_bottom zh d _ anchor i (fun m => repr zh e m x) Hs) as (m & Hm & Hr).
+  { now rewrite nth_error_map, Hx. }
+  exists (INode e m). split; [|exists m; split; [reflexivity|exact Hr]].
+  unfold node_elem. rewrite Hm. cbn [bind].
+  rewrite Htys by (apply nth_error_Some; congruence).
+  now rewrite (repr_vfb e m x Hwf Hr).
+Qed.
+
+Theorem repr_ro_complex_vector e k n vs extra :
+  is_basic_elem e = false -> wf_ty (TVector e k) = true -> small_params (TVector e k) = true ->
+  repr zh (TVector e k) n (VSeq vs) -> has_type (VSeq vs) (TVector e k) = true ->
+  exists steps, ro_iter (TVector e k) n extra = steps ++ repeat IEnd extra /\
+    Forall2 (fun step x => exists m, step = INode e m /\ repr zh e m x) steps vs.
+Proof.
+  intros Hb Hwf Hsm Hr Ht.
+  pose proof (small_contents_depth _ Hsm) as Hd.
+  cbn [wf_ty] in Hwf. apply andb_true_iff in Hwf. destruct Hwf as [_ Hwfe].
+  cbn [has_type] in Ht. apply andb_true_iff in Ht. destruct Ht as [Hlen _]. apply N.eqb_eq in Hlen.
+  cbn [repr] in Hr. rewrite Hb in Hr.
+  cbn [ro_iter]. rewrite Hb.
+  set (t := TVector e k) in *.
+  assert (Hvd : view_depth t = contents_depth t) by (unfold view_depth; cbn [is_list_ty t]; lia).
+  rewrite Hvd.
+  pose proof (series_length zh _ _ _ Hr) as Hsl. unfold lenN in Hsl.
+  rewrite map_length, Hlen, cdepth_N in Hsl.
+  rewrite (proj2 (node_iter_ok_spec (contents_depth t) k ltac:(lia)) Hsl).
+  pose proof (pow2_le_64 (contents_depth t) ltac:(lia)).
+  unfold nat_of. rewrite node_iter_drain_init by lia.
+  apply steps_of_forall2. replace (N.to_nat k) with (length vs) by lia.
+  rewrite <- cdepth_N.
+  apply (series_node_elems e (cdepth t) vs n (fun _ => Some e) Hwfe); [reflexivity|exact Hr].
+Qed.
+
+Theorem repr_ro_complex_list e k n vs extra :
+  is_basic_elem e = false -> wf_ty (TList e k) = true -> small_params (TList e k) = true ->
+  repr zh (TList e k) n (VSeq vs) -> has_type (VSeq vs) (TList e k) = true ->
+  exists steps, ro_iter (TList e k) n extra = steps ++ repeat IEnd extra /\
+    Forall2 (fun step x => exists m, step = INode e m /\ repr zh e m x) steps vs.
+Proof.
+  intros Hb Hwf Hsm Hr Ht.
+  pose proof (small_contents_depth _ Hsm) as Hd.
+  cbn [wf_ty] in Hwf. rename Hwf into Hwfe.
+  cbn [has_type] in Ht. apply andb_true_iff in Ht. destruct Ht as [Hlen _]. apply N.leb_le in Hlen.
+  cbn [repr] in Hr. destruct Hr as (c & -> & Hr). rewrite Hb in Hr.
+  cbn [ro_iter]. rewrite Hb.
+  set (t := TList e k) in *.
+  assert (H56 : k <= 2 ^ 56).
+  { cbn [small_params] in Hsm. apply andb_true_iff in Hsm. now apply N.leb_le. }
+  assert (Hll : list_length k (Pair c (len_leaf (lenN vs))) = OK (lenN vs)).
+  { unfold list_length, len_leaf, lenN.
+    assert (N.of_nat (length vs) < 2 ^ 64).
+    { assert (2 ^ 56 < 2 ^ 64) by (apply N.pow_lt_mono_r; lia). lia. }
+    assert (E : le_val (firstn 8 (pad32 (le_bytes 8 (N.of_nat (length vs))))) = N.of_nat (length vs)).
+    { unfold pad32, pad_to. rewrite firstn_firstn. cbn [Nat.min].
+      rewrite firstn_app, le_bytes_length, Nat.sub_diag. cbn [firstn]. rewrite app_nil_r.
+      rewrite firstn_all2 by (rewrite le_bytes_length; lia).
+      rewrite le_val_le_bytes. rewrite pow256. apply N.mod_small. exact H. }
+    rewrite E. rewrite (proj2 (N.ltb_ge _ _) Hlen). reflexivity. }
+  rewrite Hll. cbn [node_left]. cbv zeta.
+  pose proof (series_length zh _ _ _ Hr) as Hsl. unfold lenN in Hsl.
+  rewrite map_length, cdepth_N in Hsl. fold (lenN vs) in Hsl.
+  rewrite (proj2 (node_iter_ok_spec (contents_depth t) (lenN vs) ltac:(lia)) Hsl).
+  pose proof (pow2_le_64 (contents_depth t) ltac:(lia)).
+  unfold nat_of. rewrite node_iter_drain_init by lia.
+  apply steps_of_forall2. replace (N.to_nat (lenN vs)) with (length vs) by (unfold lenN; lia).
+  rewrite <- cdepth_N.
+  apply (series_node_elems e (cdepth t) vs c (fun _ => Some e) Hwfe); [reflexivity|exact Hr].
+Qed.
+
+End WithZeroTable2.
